@@ -227,6 +227,9 @@ func runC34(t *testing.T, r *simkit.Run) {
 		r.Steps++
 		w.resume(w.inflight[0], 0)
 	}
+	if w.clean && (w.faults > 0 || w.interleavings > 0) {
+		r.Infra("a fault or interleaving happened in a run configured without them: faults=%v interleavings=%d", r.Faults, w.interleavings)
+	}
 	r.Nontrivial = w.completed >= 3 && w.itemsCompared >= 1 && (w.interleavings > 0 || w.faults > 0 || (w.clean && w.worldEvents >= 2))
 }
 
@@ -465,6 +468,7 @@ func (w *world) resume(o *op, storeFaultPct int) {
 	if o.stamp != w.version {
 		w.interleavings++
 		o.raced = true
+		w.r.Fault("interleaved_between_store_calls")
 		w.r.Probe("interleaved." + strings.SplitN(o.pending, ":", 2)[0])
 	}
 	o.fault = faultNone
